@@ -95,6 +95,33 @@ Section Spec.
           end
     end.
 
+  (* What the EDI reader does at the top level beyond the documentation (known finding F14): when
+     the declared top-level sequence has completed and the next unit starts the first top-level
+     declaration again, the whole sequence is matched again -- as often as that happens; top-level
+     maxima are per round.  [f] bounds the number of rounds (every round takes a unit). *)
+  Fixpoint rep_loop (f : nat) (root : decl) (us : list unt) : list inst * term :=
+    match f with
+    | 0 => ([], TOutOfFuel)
+    | S f' =>
+        match us with
+        | [] => ([], TEof)
+        | _ :: _ =>
+            if starts root us then
+              match seq_loop sp_inst (d_kids root) us with
+              | MErr e t => (e, t)
+              | MOk e _ us' => let r := rep_loop f' root us' in (e ++ fst r, snd r)
+              end
+            else ([], TErrUnexpected)
+        end
+    end.
+
+  Definition spec_repeat (ds : list decl) (us : list unt) : list inst * term :=
+    match seq_loop sp_inst ds us with
+    | MErr e t => (e, t)
+    | MOk e _ us1 =>
+        let r := rep_loop (S (length us1)) (root_decl ds) us1 in (e ++ fst r, snd r)
+    end.
+
   Definition spec (ds : list decl) (us : list unt) : list inst * term :=
     match seq_loop sp_inst ds us with
     | MErr e t => (e, t)
@@ -126,19 +153,17 @@ Definition check_hcase (c : hcase) : bool :=
   result_matches (run_kind_f keep (hc_kind c) (hc_decls c) (hc_units c)) c
   && (if hc_guard c
       then result_matches (filter_res keep (spec_kind (hc_kind c) (hc_decls c) (hc_units c))) c
-      else true).
+      else true)
+  (* EDI, with or without the guard no_root_repeat: the top-level sequence repeated (F14 class) *)
+  && (match hc_kind c with
+      | KEdi => if hc_wf c
+                then result_matches (filter_res keep (spec_repeat edi_leaf (hc_decls c) (hc_units c))) c
+                else true
+      | _ => true
+      end).
 
 (* numbers in case files are written in binary (N): a unary nat literal of a few thousand per unit id
    makes coqc spend its time parsing *)
 Definition Un (n i : N) : unt := U (N.to_nat n) (N.to_nat i).
 Definition In_ (nm : N) (ids : list N) (ks : list inst) : inst := I (N.to_nat nm) (map N.to_nat ids) ks.
 Definition rejN (l : list N) : list nat := map N.to_nat l.
-
-(* HC: a run.  VC: accept/reject of a generated schema by the real ValidateSchema against the
-   transcription of what validation enforces. *)
-Inductive c05case := HC (c : hcase) | VC (k : mkind) (ds : list decl) (accepted : bool).
-Definition check_case (c : c05case) : bool :=
-  match c with
-  | HC c => check_hcase c
-  | VC k ds acc => Bool.eqb (valid_kind k ds) acc
-  end.
